@@ -235,6 +235,18 @@ def _read_peer(sock, settle=0.05):
     return buf, eof
 
 
+ISSUED = []          # (indication object, values when issued, pair) of earlier pairs evaluated in this worker process
+
+
+def _snapshot(prim):
+    out = {}
+    for k, v in vars(prim).items():
+        # only plain values are compared (A-ABORT / A-P-ABORT / A-RELEASE fields are ints or None; an A-ASSOCIATE's item
+        # lists are identified by object, their own repr() may not be usable on the hostile values the harness feeds)
+        out[k] = repr(v) if isinstance(v, (int, str, bytes, type(None), bool)) else "<%s at %x>" % (type(v).__name__, id(v))
+    return out
+
+
 def _classify_indication(prim):
     n = type(prim).__name__
     if n == "A_ASSOCIATE":
@@ -277,11 +289,28 @@ def eval_pair(case):
             accepted_conn = None
     sent, eof = _read_peer(peer)
     inds = []
+    shared = []
     while True:
         try:
-            inds.append(_classify_indication(dul.to_user_queue.get(False)))
+            prim = dul.to_user_queue.get(False)
         except queue.Empty:
             break
+        inds.append(_classify_indication(prim))
+        if type(prim).__name__ != "P_DATA":
+            # an indication belongs to the association it was issued to: the object must not be one already handed to the
+            # user of an EARLIER association of this process, and those earlier ones must keep the values they were issued with
+            if any(prim is q for q, _s, _m in ISSUED):
+                shared.append("the %s object issued for %s@%s is the very object issued earlier for %s" % (
+                    type(prim).__name__, event, state, next(m for q, _s, m in ISSUED if q is prim)))
+            else:
+                ISSUED.append((prim, _snapshot(prim), "%s@%s" % (event, state)))
+    for q, snap, m in ISSUED:
+        now = _snapshot(q)
+        if now != snap:
+            diff = sorted(k for k in set(now) | set(snap) if now.get(k) != snap.get(k))
+            shared.append("the %s issued earlier for %s changed after %s@%s: %s" % (
+                type(q).__name__, m, event, state, ", ".join("%s %s -> %s" % (k, snap.get(k), now.get(k)) for k in diff)))
+    del ISSUED[:-2000]
     inds += [_classify_indication(p) for p in extras["pdata_ind"]]
     ops = list(dul.artim_timer.ops)
     # behavioural ARTIM probe: does it expire once more than its timeout has elapsed?
@@ -428,6 +457,9 @@ def eval_pair(case):
             dul.socket.socket.close()
     except Exception:
         pass
+    for text in shared:
+        viol.append({"key": "indication-shared-between-associations|%s" % (action or "none"), "detail": text})
+    counters["earlier_indications_rechecked"] = len(ISSUED)
     return viol, counters, obs
 
 
